@@ -262,13 +262,14 @@ pub fn opt_prefer_prefix<const H: usize, const N: usize, const START: usize, con
 }
 
 /// C10 history independence: the result does not depend on what an earlier call left in the slab
-pub fn opt_history_independent<const H: usize, const N: usize, const START: usize, const K: u8>() {
+pub fn opt_history_independent<const H: usize, const N: usize, const START: usize, const K: u8, const SZ: usize>() {
     let i = inputs::<H, N, START, K>();
-    let mut fresh = small_matcher(i.cfg.clone(), SLAB);
-    let mut used = small_matcher(i.cfg.clone(), SLAB);
-    // arbitrary prior content of the scratch memory (every byte symbolic)
-    let junk: [u8; SLAB] = kani::any();
-    unsafe { std::ptr::copy_nonoverlapping(junk.as_ptr(), crate::matrix::verif_matrix::slab_ptr(&used.slab), SLAB) };
+    // SZ = a slab just large enough for this shape (the layout is checked against it by CBMC's
+    // bounds checks), so that "arbitrary prior content" is SZ symbolic bytes
+    let mut fresh = small_matcher(i.cfg.clone(), SZ);
+    let mut used = small_matcher(i.cfg.clone(), SZ);
+    let junk: [u8; SZ] = kani::any();
+    unsafe { std::ptr::copy_nonoverlapping(junk.as_ptr(), crate::matrix::verif_matrix::slab_ptr(&used.slab), SZ) };
     let mut idx1 = Vec::with_capacity(N + 2);
     let mut idx2 = Vec::with_capacity(N + 2);
     let r1 = run::<true, H, N, START>(&mut fresh, &i, &mut idx1);
